@@ -14,8 +14,10 @@ import sys
 import time
 
 VERIF = os.path.dirname(os.path.dirname(os.path.abspath(__file__)))
-REPO = os.environ.get("VERIF_REPO", "/repo")
-SCRATCH = os.environ.get("VERIF_SCRATCH", "/var/tmp")
+# an empty value means "not set" (an unset shell variable expanded into the assignment must not
+# turn the repository into "/": that once made a background run copy the whole file system)
+REPO = os.path.abspath(os.environ.get("VERIF_REPO") or "/repo")
+SCRATCH = os.path.abspath(os.environ.get("VERIF_SCRATCH") or "/var/tmp")
 CACHE_ROOT = os.path.join(SCRATCH, "verif-cache")
 GOYANG_SRC = "/root/go/pkg/mod/github.com/openconfig/goyang@v1.6.0"
 
@@ -150,6 +152,10 @@ def prune_caches(keep):
 
 
 def copy_repo(dst):
+    # never copy anything that is not the ygot repository
+    gomod = os.path.join(REPO, "go.mod")
+    if not os.path.isfile(gomod) or "module github.com/openconfig/ygot" not in open(gomod).read():
+        raise BuildError("VERIF_REPO=%r is not a checkout of github.com/openconfig/ygot (no matching go.mod)" % REPO)
     os.makedirs(dst, exist_ok=True)
     run(["rsync", "-a", "--delete", "--exclude", ".git", REPO + "/", dst + "/"], quiet=True)
 
